@@ -1,6 +1,7 @@
 """C15 - the encrypted transport delivers the exact message sequence or disconnects (structural part)."""
 from engine import *
 import provenance
+import mutations
 import re
 
 PH = 'lightning::ln::peer_handler::'
@@ -405,6 +406,10 @@ def r15h(F):
 			if f.endswith(REM) and ci['args'] and b in fu.reach([0]):
 				ex = ex or Expr(fu)
 				k = leaf_key(ex.of_operand(ci['args'][0]))
+				# the receiver may be a lock guard bound to a local first: resolve it to the field it is rooted in
+				rf = mutations.root_field(ex.of_operand(ci['args'][0]), ex)
+				if rf and rf.endswith(('.node_id_to_descriptor', '.peers')):
+					k = rf
 				if 'node_id_to_descriptor' in k:
 					n2d.append(b)
 				elif 'peers' in k and f.endswith(('HashMap::remove', 'HashMap::drain', 'HashMap::clear', 'HashMap::remove_entry', 'Entry::remove')) and 'peers_to_disconnect' not in k.split('(')[-1]:
@@ -493,3 +498,4 @@ RULES = [
 ]
 RULES.append(('15.R', 'state resets: every reviewed constant write to persistent state (flag = true / false, counter = 0, pending slot = None) of a function is still made (rules/provenance.py)', lambda F: provenance.flags_for_property(F, 'C15', '15.R')))
 RULES.append(('15.P', 'panic sites: no reviewed function that parses / handles untrusted input gained an unwrap / expect / explicit panic / bounds-checked index / length-checked copy / division (rules/provenance.py; panic freedom itself is not decided)', lambda F: provenance.panics_for_property(F, 'C15', '15.P')))
+RULES.append(('15.M', 'collection mutations: every reviewed (function, stored collection, mutator class: add / remove / filter / empty / swap / order) triple is still present - an entry that is no longer removed, inserted or drained on one path (rules/mutations.py)', lambda F: mutations.for_property(F, 'C15', '15.M')))
